@@ -317,13 +317,14 @@ def c07(tier, seed):
                                      "bindgen/ir/analysis/{has_vtable,sizedness}.rs: MonotoneFramework::constrain of HasVtableAnalysis and SizednessAnalysis (unit lattice_constrain: only the node moves, to the join of its old fact and the documented rule applied to the current facts of its neighbours; Changed <=> it moved; insert/forward used through their contracts; the unreachable!() arms proved unreachable under the stated IR invariants)",
                                      "bindgen/ir/{ty,comp,template,function,item}.rs: the Trace impls of Type, CompInfo, CompFields, Field, TemplateInstantiation, FunctionSig and Item (unit trace_impls, generic in the tracer): the exact sequence of (target, EdgeKind) each reports - inner types as TypeReference, bases as BaseMember, template definition / arguments as TemplateDeclaration / TemplateArgument, parameters as FunctionParameter, ...; nothing for stdint-named types, no bases/fields for opaque compounds - i.e. the table the subscription check (unit edges) is stated against",
                                      "bindgen/ir/analysis/template_params.rs: UsedTemplateParameters::constrain_instantiation (unit template_params): the instantiation rule adds exactly what the arguments use for the parameters the definition uses, whatever is already known (monotone: no state-keyed shortcut)",
+                                     "bindgen/ir/analysis/template_params.rs: UsedTemplateParameters::constrain, take_this_id_usage_set, constrain_join, constrain_instantiation_of_blocklisted_template, consider_edge (unit template_params; the iterator pipeline and the trace callback are turned into index loops by rules R26/R27): constrain(id) replaces id's set by (old set) UNION rule_set(table without id) where the rule is chosen by the item kind (type parameter: itself; instantiation of an allowlisted template: contrib_set; of a blocklisted one: every argument's usage; anything else: the usage of every successor over a considered edge), leaves every other entry untouched, never panics on its monotonicity assert!, and answers Same exactly when the set did not grow - so re-applying the rule to a table it does not enlarge changes nothing",
                                      "bindgen/ir/analysis/mod.rs: the edge-recording callback of generate_dependencies (unit deps, closure R18): an edge item -> sub_item is recorded reversed exactly when sub_item is allowlisted and the analysis' consider_edge accepts its kind; bindgen/ir/analysis/template_params.rs: the edge-recording callback of UsedTemplateParameters::new records EVERY traced edge (its consider_edge rejects TemplateDeclaration, which constrain_instantiation reads through)",
                                      "bindgen/ir/analysis/mod.rs: analyze::<A> -- the generic worklist driver, for EVERY analysis A satisfying the MonotoneFramework obligations (unit analyze: at return every node of the initial worklist is stable, i.e. re-applying its rule changes nothing; `while let` desugared by its definition (R19), the each_depending_on callback = append of the dependents (R16); termination not proved)",
                                      "bindgen/ir/analysis/{has_vtable,sizedness,derive}.rs: insert (+forward) of the lattice-valued analyses (unit lattice_insert: the key moves only up, to the join; Changed <=> it moved; Entry API desugared by rule R17)"],
         "assumptions": ["necessary conditions of the least-fixed-point property: (i) joins are least upper bounds of the declared orders, (ii) every edge kind a rule reads along is in the analysis' subscription predicate, (iii) every table update is inflationary and reports Changed exactly when the table changed, (iv) the three set-valued rules compute the fact of a node from the current facts of its neighbours (fix-point equation)",
                         "(v) the driver: assuming of an analysis that constrain(n) leaves n stable, that Same changes nothing and that Changed can de-stabilise only nodes each_depending_on(n) reports (env/analyze_env.rs), analyze returns a state in which every node of the initial worklist is stable",
                         "CannotDerive::constrain IS under contract (unit constrain: node_rule = per-type rule + large-alignment conservatism, member join uninterpreted); of UsedTemplateParameters only constrain_instantiation and the dependency recording are (constrain, constrain_join, constrain_instantiation_of_blocklisted_template are NOT); CannotDerive does not satisfy the driver's assumption for NON-allowlisted sub-items (it has no dependency edges for them and relies on the seed order of its initial_worklist instead: seed S24 missed)"],
-        "unverified": ["constrain of template_params (UsedTemplateParameters); CannotDerive::constrain_join (which members are joined); the initial_worklist functions (iterator chains); the loops around the dependency-recording callbacks (generate_dependencies, UsedTemplateParameters::new: that every allowlisted item is traced); the Trace impl of ObjCInterface; the getters the verified Trace impls read; completeness of the read-sets; termination; the declaration-order corollary"],
+        "unverified": ["that Item::trace hands its callback exactly the edges of the Trace impls verified in unit trace_impls (rule R27 reads them from one env accessor); CannotDerive::constrain_join (which members are joined); the initial_worklist functions (iterator chains); the loops around the dependency-recording callbacks (generate_dependencies, UsedTemplateParameters::new: that every allowlisted item is traced); the Trace impl of ObjCInterface; the getters the verified Trace impls read; completeness of the read-sets; termination; the declaration-order corollary"],
     }, extra_obs=extra)
 
 
